@@ -51,28 +51,29 @@ mod sp_weighted__to;
 mod set_reach__par;
 mod set_reach__src1;
 mod bset__pari;
-mod opt_lat__pari;
-mod lat_two_keys__par;
-mod lat_val_bound__par;
-mod count_paths__mrt;
-mod count_paths__srcpar;
-mod neg_basic__gen;
-mod neg_basic__perm1;
-mod agg_minmaxsum__pari;
-mod agg_lattice__pari;
-mod neg_rec_after__pari;
-mod agg_empty__pari;
-mod agg_const_args__ser;
-mod disj__to;
-mod disj__redecl;
-mod disj__exp;
-mod pat_args__par;
-mod rep_expr__exppar;
-mod neg_in_disj__pari;
-mod mac_basic__run;
-mod mac_basic__runpar;
-mod mac_capture__exppar;
-mod mac_gensym_disj__pari;
+mod opt_lat__ser;
+mod bool_lat__pari;
+mod lat_multi_improve__topar;
+mod count_paths__topar;
+mod count_paths__init;
+mod neg_basic__run;
+mod neg_basic__runpar;
+mod agg_minmaxsum__ser;
+mod agg_lattice__ser;
+mod neg_rec_after__ser;
+mod agg_empty__ser;
+mod agg_empty_rel__to;
+mod disj__par;
+mod disj__src1;
+mod disj__ren;
+mod disj_nested__exppar;
+mod rep_expr__pari;
+mod neg_in_disj__ser;
+mod mac_basic__to;
+mod mac_basic__redecl;
+mod mac_capture__pari;
+mod mac_gensym_disj__ser;
+mod mac_disj__exp;
 
 fn lookup(name: &str) -> fn() -> Box<dyn Driven> {
    match name {
@@ -119,28 +120,29 @@ fn lookup(name: &str) -> fn() -> Box<dyn Driven> {
       "set_reach__par" => set_reach__par::make,
       "set_reach__src1" => set_reach__src1::make,
       "bset__pari" => bset__pari::make,
-      "opt_lat__pari" => opt_lat__pari::make,
-      "lat_two_keys__par" => lat_two_keys__par::make,
-      "lat_val_bound__par" => lat_val_bound__par::make,
-      "count_paths__mrt" => count_paths__mrt::make,
-      "count_paths__srcpar" => count_paths__srcpar::make,
-      "neg_basic__gen" => neg_basic__gen::make,
-      "neg_basic__perm1" => neg_basic__perm1::make,
-      "agg_minmaxsum__pari" => agg_minmaxsum__pari::make,
-      "agg_lattice__pari" => agg_lattice__pari::make,
-      "neg_rec_after__pari" => neg_rec_after__pari::make,
-      "agg_empty__pari" => agg_empty__pari::make,
-      "agg_const_args__ser" => agg_const_args__ser::make,
-      "disj__to" => disj__to::make,
-      "disj__redecl" => disj__redecl::make,
-      "disj__exp" => disj__exp::make,
-      "pat_args__par" => pat_args__par::make,
-      "rep_expr__exppar" => rep_expr__exppar::make,
-      "neg_in_disj__pari" => neg_in_disj__pari::make,
-      "mac_basic__run" => mac_basic__run::make,
-      "mac_basic__runpar" => mac_basic__runpar::make,
-      "mac_capture__exppar" => mac_capture__exppar::make,
-      "mac_gensym_disj__pari" => mac_gensym_disj__pari::make,
+      "opt_lat__ser" => opt_lat__ser::make,
+      "bool_lat__pari" => bool_lat__pari::make,
+      "lat_multi_improve__topar" => lat_multi_improve__topar::make,
+      "count_paths__topar" => count_paths__topar::make,
+      "count_paths__init" => count_paths__init::make,
+      "neg_basic__run" => neg_basic__run::make,
+      "neg_basic__runpar" => neg_basic__runpar::make,
+      "agg_minmaxsum__ser" => agg_minmaxsum__ser::make,
+      "agg_lattice__ser" => agg_lattice__ser::make,
+      "neg_rec_after__ser" => neg_rec_after__ser::make,
+      "agg_empty__ser" => agg_empty__ser::make,
+      "agg_empty_rel__to" => agg_empty_rel__to::make,
+      "disj__par" => disj__par::make,
+      "disj__src1" => disj__src1::make,
+      "disj__ren" => disj__ren::make,
+      "disj_nested__exppar" => disj_nested__exppar::make,
+      "rep_expr__pari" => rep_expr__pari::make,
+      "neg_in_disj__ser" => neg_in_disj__ser::make,
+      "mac_basic__to" => mac_basic__to::make,
+      "mac_basic__redecl" => mac_basic__redecl::make,
+      "mac_capture__pari" => mac_capture__pari::make,
+      "mac_gensym_disj__ser" => mac_gensym_disj__ser::make,
+      "mac_disj__exp" => mac_disj__exp::make,
       _ => panic!("no such program variant in this shard: {}", name),
    }
 }
